@@ -26,7 +26,29 @@ CK_VAR = {"changed": "variable-subtype-change", "added": "added-variable", "remo
 
 
 @st.composite
+def shared_cause(draw):
+    """Second flavour: 3-6 functions with one and the same signature over struct S, and a change of S.  They share one
+    canonical function-type diff node; with --redundant each of them is listed."""
+    n = draw(st.integers(3, 6))
+    sig = S._pick(draw, [[["p", ["n", "S"]]], [["n", "S"]], [["b", "int"], ["p", ["n", "S"]]], [["p", ["c", ["n", "S"]]], ["b", "char"]]])
+    ret = S._pick(draw, [["b", "int"], ["void"], ["p", ["n", "S"]]])
+    names = ["get_" + c for c in "abcdefgh"[:n]]
+    m = {"lang": "c", "types": [{"kind": "struct", "name": "S", "members": [{"name": "x", "type": ["b", "int"], "bits": None},
+                                                                                  {"name": "y", "type": ["b", "long"], "bits": None}]}],
+         "funcs": [{"name": nm, "ret": ret, "params": [{"name": "p%d" % j, "type": t} for j, t in enumerate(sig)], "variadic": False,
+                    "tu": draw(st.integers(0, 1)), "body": 1} for nm in names], "vars": [], "statics": []}
+    m2 = copy.deepcopy(m)
+    m2["types"][0]["members"].insert(draw(st.integers(0, 2)), {"name": "z", "type": ["b", S._pick(draw, ["char", "long", "double"])], "bits": None})
+    target = S._pick(draw, names)
+    return {"model": m, "cfg": draw(S.build_config()), "mutant": m2, "changes": dict((nm, "changed") for nm in names), "target": target,
+            "how": S._pick(draw, ["name", "name_regexp", "symbol_name", "symbol_name_regexp"]),
+            "ck": S._pick(draw, ["match", "all", "none", "other"]), "shared": True}
+
+
+@st.composite
 def strategy_(draw, tier):
+    if draw(st.integers(0, 3)) == 0:
+        return draw(shared_cause())
     # builtin-only signatures: every interface's change is its own
     m = draw(S.library(lang="c", max_types=1, min_funcs=4, max_funcs=9, max_vars=5, max_tus=2, symfeatures=False,
                        statics=False, kind_w=[("enum", 1)]))
@@ -109,8 +131,10 @@ def run_case(case, cx):
                 if i["name"] == target:
                     i["version"] = "VERS_2"
         vs_target = "VERS_2"
+    shared = case.get("shared", False)
+    ropts = ["--redundant"] if shared else []
     d, b1, b2 = pairs.build_pair(cx, m, m2, cfg)
-    base = pairs.abidiff(cx, b1, b2)
+    base = pairs.abidiff(cx, b1, b2, ropts)
     if cbuild.crashed(base):
         cx.violation("crash:" + cbuild.crash_key(base), base.brief())
         return
@@ -139,13 +163,14 @@ def run_case(case, cx):
     text = suppr.section("suppress_function" if kind == "fn" else "suppress_variable", props)
     sp = d + "/s.suppr"
     open(sp, "w").write(text)
-    r = pairs.abidiff(cx, b1, b2, ["--suppressions", sp])
+    r = pairs.abidiff(cx, b1, b2, ropts + ["--suppressions", sp])
     if cbuild.crashed(r):
         cx.violation("crash:" + cbuild.crash_key(r), dict(r.brief(), suppr=text))
         return
     rep = pairs.parse_or_oracle_error(cx, r)
     nlisted = sum(len(v) for v in entries_of(brep).values())
-    cx.cls("how=" + case["how"], "change_kind=" + str(ckv), "target=%s-%s" % (kind, chg), "covers=%s" % covers)
+    cx.cls("how=" + case["how"], "change_kind=" + str(ckv), "target=%s-%s" % (kind, chg), "covers=%s" % covers,
+           "flavour=" + ("shared-cause" if shared else "private-cause"))
     pos = [e for e, b in entries_of(brep)[col]]
     first = re.search(r"(?<![A-Za-z0-9_])%s(?![A-Za-z0-9_])" % re.escape(target), pos[0]) is not None
     if nlisted >= 3 and not first:
@@ -159,6 +184,11 @@ def run_case(case, cx):
             cx.violation("change_kind-not-covering-still-changes-report", det)
         return
     be, ne = entries_of(brep), entries_of(rep)
+    if shared:
+        # with a shared cause the detailed explanation may move to another entry ("details were reported earlier"): the
+        # entries are compared by their header lines only
+        be = dict((k, [(e, ()) for e, b in v]) for k, v in be.items())
+        ne = dict((k, [(e, ()) for e, b in v]) for k, v in ne.items())
     for key in set(be) | set(ne):
         old = be.get(key, [])
         new = ne.get(key, [])
